@@ -101,9 +101,13 @@ def _mk_statement_method(stream_cls: str, method: str, arity: int) -> Any:
         modifies = ["self.encoder.names", "self.encoder.prefixes", "self.encoder.datatypes", "self.repeated_terms", "self.flow.data"]
         # one verification per kind of flow the stream may hold: bounded (emits on size) and the others (never do)
         variants = [{"self": OBJ(f"{SS}:{stream_cls}")}, {"self": OBJ(f"{SS}:{stream_cls}@manual")},
-                    {"self": OBJ(f"{SS}:{stream_cls}@graphs")}]
+                    {"self": OBJ(f"{SS}:{stream_cls}@graphs")}] + \
+                   ([{"self": OBJ(f"{SS}:{stream_cls}@r")}, {"self": OBJ(f"{SS}:{stream_cls}@rmanual")},
+                     {"self": OBJ(f"{SS}:{stream_cls}@rgraphs")}] if arity == 3 else [])     # rdflib encoder: triples only so far
 
-        def requires(e): return wf_te(e.self.encoder)
+        def requires(e):
+            from .encode import encoder_universe
+            return And(wf_te(e.self.encoder), encoder_universe(e.self.encoder, list(e.terms.items)))
 
         def raises(e):
             from .encode import first_exc, graph_exc, rep_equal
@@ -151,4 +155,8 @@ def _mk_statement_method(stream_cls: str, method: str, arity: int) -> Any:
 for _cls, _m, _k in (("TripleStream", "triple", 3), ("QuadStream", "quad", 4)):
     for _suffix, _flowcls in (("@manual", "ManualFrameFlow"), ("@graphs", "GraphsFrameFlow")):
         shape(f"{SS}:{_cls}{_suffix}", fields={**_stream_fields, "flow": OBJ(f"{FL}:{_flowcls}")}, ghost=_stream_ghost)
+    # the same stream classes holding the rdflib integration's term encoder
+    from .encode import RENC as _RENC
+    for _suffix, _flowcls in (("@r", "BoundedFrameFlow"), ("@rmanual", "ManualFrameFlow"), ("@rgraphs", "GraphsFrameFlow")):
+        shape(f"{SS}:{_cls}{_suffix}", fields={**_stream_fields, "encoder": OBJ(_RENC), "flow": OBJ(f"{FL}:{_flowcls}")}, ghost=_stream_ghost)
     contract(f"{SS}:{_cls}.{_m}", serves=["C11", "C06", "C07", "C01", "C20"])(_mk_statement_method(_cls, _m, _k))
